@@ -256,7 +256,7 @@ class Avail:
             if d < 0:
                 self.store(e, show(e), False, 'cursor decremented')
             return st.moved(1) if d > 0 else st.moved(None)
-        ap = assign_parts(e)
+        ap = assign_parts_raw(e)
         if ap:
             tgt, rhs, op = ap
             st = self.eff(rhs, st, loc)
